@@ -35,7 +35,8 @@ BAD = ["random", "short_body", "nontext_body", "no_separators", "nonhex_type", "
        # not a Midea reply at all
        "xml_nul_padded", "xml_trailing_garbage", "xml_leading_space", "xml_bom", "ssdp_text", "json_text", "html_text",
        "zero_length", "one_byte_marker", "xml_entity", "v3_header_only", "huge",
-       "xml_unknown_encoding", "xml_utf16_label", "xml_ebcdic_label", "xml_pi_only", "xml_open_port"]
+       "xml_unknown_encoding", "xml_utf16_label", "xml_ebcdic_label", "xml_pi_only", "xml_open_port",
+       "xml_open_port_fin", "xml_open_port_rst", "xml_open_port_fin_on_query"]
 
 
 def bad_reply(kind, h, seed):
@@ -62,6 +63,9 @@ def bad_reply(kind, h, seed):
         return b""
     if kind == "one_byte_marker":
         return bytes([0x5A if seed % 2 else 0x83])
+    if kind in ("xml_open_port_fin", "xml_open_port_rst", "xml_open_port_fin_on_query"):
+        # an old (V1) unit whose TCP port accepts the connection and hangs up without answering the query
+        return b'<a><body><device port="7777"/></body></a>'
     if kind == "xml_open_port":
         # an old (V1) unit: its TCP port accepts the connection and then says nothing (the library waits 8 s)
         return b'<a><body><device port="7777"/></body></a>'
@@ -112,6 +116,27 @@ def bad_reply(kind, h, seed):
     return codec.discovery_reply_v2(h["device_id"], body)
 
 
+class _HangsUp:
+    """A TCP server that accepts and closes the connection without ever answering."""
+
+    def __init__(self, cls):
+        self.cls = cls
+
+    def connect_policy(self, net, host, port):
+        return "accept", 1 / 1024
+
+    def on_connect(self, conn):
+        if not self.cls.endswith("on_query"):
+            conn.close(rst=self.cls.endswith("rst"), lat=0.05)
+
+    def on_data(self, conn, data):
+        if self.cls.endswith("on_query"):
+            conn.close(rst=False, lat=0.01)
+
+    def on_client_close(self, conn):
+        pass
+
+
 class _Silent:
     """A TCP server that accepts and never says anything."""
 
@@ -160,6 +185,8 @@ def run(plan):
             w.fire("udp_bad_reply[" + h["cls"] + "]")
         if h["cls"] == "xml_open_port":
             w.net.listen(h["ip"], 7777, _Silent())
+        elif h["cls"].startswith("xml_open_port_"):
+            w.net.listen(h["ip"], 7777, _HangsUp(h["cls"]))
         rh = RefHost(h["ip"], replies)
         if plan.get("single") is not None and hi != plan["single"]:
             rh.chatty = True           # talks to the prober although only the target was probed
